@@ -313,3 +313,12 @@ def run(program, rep, tier):
     check_direct(program, rep)
     from rules import c13
     c13.instance_state(program, rep, 'C04.instance-state')
+    # the anchored release site of the loop: SimpleLoop.switch makes the
+    # enabling assignment on the entered world on every path (C13's rule)
+    got = rep.borrow(c13.plumbing, program, rep,
+                     keep=lambda o: o.site.endswith('SimpleLoop.switch'),
+                     rename=lambda r: 'C04.loop-release',
+                     why='the loop never makes the enabling assignment on the '
+                     'world it enters: its deferred events are never released')
+    rep.floor('C04.loop-release', 'SimpleLoop.switch release site', len(got),
+              1)
